@@ -8,7 +8,7 @@ from common import R, Rvec, Cx, fl, cfl, ModelError
 
 from common import wiring_pre_build as pre_build  # noqa: E402,F401
 
-LEAN_MODULES = ["PyomaVerif.Props.C07", "PyomaVerif.Props.C07Bell", "PyomaVerif.Mutants.C07", "PyomaVerif.Props.WiringMpe", "PyomaVerif.Props.C07All", "PyomaVerif.Props.WiringCalls"]
+LEAN_MODULES = ["PyomaVerif.Props.C07", "PyomaVerif.Props.C07Bell", "PyomaVerif.Mutants.C07", "PyomaVerif.Props.WiringMpe", "PyomaVerif.Props.C07All", "PyomaVerif.Props.WiringCalls", "PyomaVerif.Props.C07Rect"]
 THEOREMS = [
     # the exact sequence of core-routine calls of the run()/mpe() body and the exact set of parameters bound at each (regenerated call table)
     "PV.WiringCalls.C06_mpe_calls",
@@ -64,6 +64,22 @@ THEOREMS = [
     "PV.C07All.C07_one_spec",
     "PV.C07All.C07_mpe_spec",
     "PV.C07All.exRun_ok",
+    # depth round 2: EFDD_mpe on a rectangular (half) spectrum (Model/EfddRect.lean, Props/C07Rect.lean)
+    "PV.C07Rect.C07_rect_svalsvec_ok",
+    "PV.C07Rect.C07_rect_svalsvec_lt",
+    "PV.C07Rect.C07_rect_svalsvec_elim",
+    "PV.C07Rect.C07_rect_lt_raises",
+    "PV.C07Rect.C07_rect_efdd_guard_none",
+    "PV.C07Rect.C07_rect_efdd_guard_none_le",
+    "PV.C07Rect.C07_rect_square_one",
+    "PV.C07Rect.C07_rect_square",
+    "PV.C07Rect.C07_one_spec_rect",
+    "PV.C07Rect.C07_mpe_spec_rect",
+    "PV.C07Rect.C07_rect_fsdd_raises",
+    "PV.C07Rect.C07_rect_cm_raises",
+    "PV.C07Rect.exRunR_ok",
+    "PV.C07Rect.exRunR_fsdd",
+    "PV.C07Rect.exRunR_cm_lt",
 ]
 RULE = (
     "correspondence: fdd.SDOF_bellandMS vs Efdd.sdofBell with np.linalg.svd wrapped and its recorded output handed to the "
@@ -84,7 +100,11 @@ RULE = (
     "(svd looked up by its ARGUMENT, exact match with Sy[:, :, k]; sqrt/log by nearest recorded argument, the model's own arguments compared with "
     "the recorded ones at 1e-9; the inverse FFT is the model's explicit transform): first-stage lines and shapes, Phi, np.where(SDOFbell), fitted "
     "extremum indices exact; delta equal, lam 1e-13, xi 1e-12, fd 1e-12, fn 1e-11; the arguments of the inner calls (FDD_mpe DF=DF1, "
-    "SDOF_bellandMS dt/sel/phi_FDD/method/cm/MAClim/DF=DF2, ifft n=5nf ortho, curve_fit x=arange(npmax)); exception class on malformed requests"
+    "SDOF_bellandMS dt/sel/phi_FDD/method/cm/MAClim/DF=DF2, ifft n=5nf ortho, curve_fit x=arange(npmax)); exception class on malformed requests. "
+    "depth round 2 (Props/C07Rect): stream fdd.EFDD_mpe[rect] - Sy of shape (nr, nc, nf) (nr 3..5 > nc 2..4 as EFDD_MS hands it over; also square and 1 < nr < nc) "
+    "vs Efdd.efddMpeR: FSDD on nr != nc -> ValueError(not aligned), nr < nc -> ValueError(could not broadcast input array), cm = nr + 1 -> IndexError (class AND "
+    "message kind compared), cm = nc + 1 <= nr returns; npmax in {1, 5, 20} (npmax = 1: fn NaN == model none); first stage called with values (nc, nc, nf) and "
+    "vectors (nr, nr, nf), Phi of nr components, SDOFms (nf, nr) of the recorded SDOF_bellandMS call vs Efdd.sdofMs at 1e-12 with the same zero pattern"
 )
 EXTRA_TRUSTED = [
     "np.linalg.svd, np.fft.ifft (linear), np.log, np.sqrt, scipy curve_fit (closed form Σkδ/Σk² compared on every case)",
@@ -102,6 +122,7 @@ ASSUMPTIONS = [
     "phi^H Sy phi pairs without conjugation (C07_bell_structured_coded, C07_fsdd_complex_shape_witness) - deviations are counted, not reported",
     "composed stream: cases with a correlation sample within 1e-13 of zero in the half record, or a bell of fewer than 3 lines (undamped periodic "
     "correlation, extrema tie to rounding) are skipped and counted; Efdd.efddMpe returns 'outside-model' for a NaN first-stage shape / zero correlation",
+    "rectangular model Efdd.efddMpeR: nr = 0, nc = 0 and nr = 1 < nc (numpy broadcasts the single singular value over the whole nc x nc block) return 'outside-model' and are not generated",
 ]
 
 
@@ -660,6 +681,163 @@ def _all_case(ctx, k, malformed=False):
         ctx.dist[f"all_worst_{k_}_1e-16"] = max(ctx.dist.get(f"all_worst_{k_}_1e-16", 0), int(v * 1e16))
 
 
+# ----------------------------------------------------------------------------- EFDD_mpe on a rectangular (half) spectrum vs Efdd.efddMpeR (Model/EfddRect.lean)
+_RECT_MSG = {  # model message -> what the real exception's text must contain
+    "ValueError: shapes not aligned": "not aligned",
+    "ValueError: could not broadcast input array": "could not broadcast input array",
+    "ValueError: operands could not be broadcast together": "broadcast",
+    "IndexError: index is out of bounds for axis 0": "out of bounds for axis 0",
+}
+
+
+def _rect_case(ctx, k):
+    """Sy of shape (nr, nc, nf) as EFDD_MS hands it to EFDD_mpe (all channels x reference channels): kinds half (nr > nc, EFDD),
+    half_fsdd (FSDD: ValueError), wide (1 < nr < nc: ValueError in SD_svalsvec), square; cm up to nr + 1; npmax in {1, 5, 20}"""
+    fdd = _fdd()
+    rng = ctx.rng
+    g = ctx.nprng()
+    kind = ["half", "half_fsdd", "half", "square", "wide", "half"][k % 6]
+    nr = rng.randint(3, 5)
+    nc = rng.randint(2, nr - 1)
+    method = "EFDD"
+    if kind == "half_fsdd":
+        method = "FSDD"
+    elif kind == "square":
+        nc = nr = rng.randint(2, 3)
+        method = rng.choice(["FSDD", "EFDD"])
+    elif kind == "wide":
+        nr, nc = nc, nr
+    nf = rng.choice([33, 49, 65])
+    npmax = rng.choice([1, 5, 20])
+    if npmax == 20:
+        nf = 65
+    fs = rng.choice([20.0, 100.0, 512.0, 37.5])
+    dt = 1 / fs
+    fnr = rng.uniform(0.24, 0.34) if npmax == 20 and rng.random() < 0.8 else rng.uniform(0.14, 0.32)
+    xi = rng.uniform(0.012, 0.04)
+    n = max(nr, nc)
+    freq, Sq, _ = _sdof_sy(g, n, nf, fs, fnr, xi, floor=10.0 ** rng.uniform(-9, -5))
+    Sy = np.ascontiguousarray(Sq[:nr, :nc, :])  # the first nc channels are the references
+    msy = rng.choice(["per", "cor", "paer"])
+    sppk = rng.choice([3, 3, 0, 1])
+    # close modes: the default, two, one more than the reference block holds (runs: the MAC test fails there), one more than there are channels
+    cm = rng.choice([1, 2, nc + 1, nr + 1]) if kind in ("half", "square") else rng.choice([1, 2])
+    MAClim = rng.choice([0.85, rng.uniform(0.5, 0.97)])
+    line = fs / (2 * (nf - 1))
+    sel = [fnr * fs * rng.uniform(0.97, 1.03)]
+    DF1 = max(2 * line, rng.uniform(1, 3) * 2 * xi * fnr * fs)
+    DF2 = rng.uniform(3, 8) * 2 * xi * fnr * fs + 3 * line
+    nI = 5 * nf
+    tw = np.exp(2j * np.pi * np.arange(nI) / nI)
+    rs = 1 / np.sqrt(nI)
+    err = msg = None
+    with _Spies(fdd) as sp:
+        try:
+            Fn, Xi, Phi, PP = fdd.EFDD_mpe(Sy, freq, dt, list(sel), msy, method=method, DF1=DF1, DF2=DF2, cm=cm, MAClim=MAClim, sppk=sppk, npmax=npmax)
+        except Exception as e:  # noqa: BLE001 - any exception class is compared with the model's
+            err, msg = type(e).__name__, str(e)
+    name = "fdd.EFDD_mpe[rect]"
+    inp = {"kind": kind, "method": method, "methodSy": msy, "nr": nr, "nc": nc, "nf": nf, "dt": dt, "sel": sel, "DF1": DF1, "DF2": DF2, "cm": cm,
+           "MAClim": MAClim, "sppk": sppk, "npmax": npmax, "Sy_re": Sy.real.tolist(), "Sy_im": Sy.imag.tolist()}
+    key = (kind, method, nr, nc, min(cm, 3) if cm <= nc else ("nc+" if cm <= nr else "nr+"), npmax, err)
+    svd_tab, consistent = _svd_table(sp.svd)
+    for a_in, _, _, out_in in sp.ifft:
+        h = out_in.real[: len(out_in) // 2]
+        if not np.all(np.isfinite(out_in.real)) or np.abs(h).min() <= 1e-13 * np.abs(out_in.real).max():
+            ctx.skipped += 1
+            ctx.count("rect_skipped_zero_sample")
+            return
+    if kind == "wide":  # SD_svalsvec raised at the first line: the model needs the decompositions of all lines in its table
+        for l_ in range(nf):
+            U_, S_, _ = np.linalg.svd(Sy[:, :, l_])
+            sp.svd.append((np.array(Sy[:, :, l_]), (), {}, U_, S_, None))
+        svd_tab, consistent = _svd_table(sp.svd)
+    try:
+        out = ctx.model(
+            "efdd_mpe_rect", method=method, method_sy=msy, nr=nr, nc=nc, nf=nf,
+            Sy=[[[Cx(Sy[i, j, l]) for l in range(nf)] for j in range(nc)] for i in range(nr)],
+            freq=Rvec(freq), dt=R(dt), sel=Rvec(sel), DF1=R(DF1), DF2=R(DF2), cm=cm, MAClim=R(MAClim), sppk=sppk, npmax=npmax,
+            svd=svd_tab, sqrt=_pairs(sp.sqrt), log=_pairs(sp.log), pi=R(math.pi), tw=[Cx(z) for z in tw], rs=R(rs),
+            fit=[{"y": Rvec(y), "m": R(m)} for (_, y, m, _, _) in sp.fit if np.all(np.isfinite(y)) and math.isfinite(m)],
+        )
+    except ModelError as e:
+        ctx.corr(name, False, inp, str(e), err or "returned", key)
+        return
+    if err is not None or "error" in out:
+        me = out.get("error") or ""
+        ok = err is not None and me.startswith(err) and (me not in _RECT_MSG or _RECT_MSG[me] in msg)
+        ctx.corr(name, bool(ok), inp, out.get("error"), f"{err}: {msg}" if err else "returned", key)
+        ctx.count(f"rect_error_{kind}_{method}_{err}")
+        return
+    if any(len(np.ravel(pp_[4])) < 3 for pp_ in PP):
+        ctx.skipped += 1
+        ctx.count("rect_skipped_periodic_correlation")
+        return
+    import inspect
+
+    def bound(fn, args, kw):
+        ba = inspect.signature(fn).bind(*args, **kw)
+        ba.apply_defaults()
+        return ba.arguments
+
+    flags = {}
+    flags["svd_calls"] = consistent and len(svd_tab) <= nf and all(c[0].shape == (nr, nc) for c in sp.svd)
+    fc = sp.fdd_calls
+    b0 = bound(sp.saved[5], fc[0][0], fc[0][1]) if len(fc) >= 1 else {}
+    # the first stage gets the WHOLE decomposition: values (nc, nc, nf), vectors (nr, nr, nf)
+    flags["first_stage_call"] = (len(fc) == 1 and b0.get("DF") == DF1 and list(b0.get("sel_freq", [])) == list(sel)
+                                 and np.shape(b0.get("Sval")) == (nc, nc, nf) and np.shape(b0.get("Svec")) == (nr, nr, nf))
+    first = out["first"]
+    Fn1, Phi1 = fc[0][2]
+    flags["first_stage"] = (
+        isinstance(first, list) and len(first) == 1 and np.shape(Phi1) == (nr, 1)
+        and all(fl(m_["fn"]) == float(Fn1[i]) and freq[m_["idx"]] == float(Fn1[i]) for i, m_ in enumerate(first))
+        and all(m_["phi"] is not None and len(m_["phi"]) == nr and np.abs(np.array([cfl(z) for z in m_["phi"]]) - Phi1[:, i]).max() <= 1e-12 for i, m_ in enumerate(first))
+    )
+    bc = sp.bell_calls
+    bb = [bound(sp.saved[6], c[0], c[1]) for c in bc]
+    flags["bell_calls"] = len(bc) == 1 and all(
+        b["dt"] == dt and b["sel_fn"] == sel[i] and np.array_equal(b["phi_FDD"], Phi1[:, i]) and np.array_equal(b["Sy"], Sy)
+        and (b["method"], b["cm"], b["MAClim"], b["DF"]) == (method, cm, MAClim, DF2) for i, b in enumerate(bb))
+    flags["fit_calls"] = len(sp.fit) == 1 and all(np.array_equal(c[0], np.arange(npmax)) for c in sp.fit)
+    modes = out["modes"]
+    Fn_, Xi_ = np.ravel(Fn), np.ravel(Xi)
+    flags["count"] = len(modes) == 1 and np.shape(Phi) == (nr, 1)
+    for i, mo in enumerate(modes[:1]):
+        pp = PP[i]
+        f = {}
+        f["phi"] = len(mo["phi"]) == nr and np.abs(np.array([cfl(z) for z in mo["phi"]]) - np.asarray(Phi)[:, i]).max() <= 1e-12
+        f["idSV"] = mo["idSV"] == np.ravel(pp[4]).tolist()
+        # SDOFms1 (nf, nr): the stored vectors of the lines / close modes that passed the MAC test
+        ms_code = np.asarray(bc[i][2][1])
+        ms_model = np.array([[cfl(z) for z in row] for row in out["ms"][i]])
+        f["SDOFms"] = ms_code.shape == (nf, nr) == ms_model.shape and np.abs(ms_code - ms_model).max() <= 1e-12 \
+            and np.array_equal(np.abs(ms_code) > 0, np.abs(ms_model) > 0)
+        f["fit_idx"] = mo["fit_idx"] == np.asarray(pp[6]).tolist()
+        dm = np.array([fl(v) for v in mo["delta"]])
+        delta_code = np.asarray(pp[8], float)
+        f["delta"] = dm.shape == delta_code.shape and np.array_equal(dm, delta_code)
+        lam_code = float(np.ravel(pp[7])[0])
+        f["lam"] = abs(fl(mo["lam"]) - lam_code) <= 1e-13 * max(abs(lam_code), 1e-300)
+        f["xi"] = abs(fl(mo["xi"]) - Xi_[i]) <= 1e-12 * abs(Xi_[i])
+        if math.isnan(Fn_[i]):  # npmax = 1: np.mean of an empty np.diff
+            f["fn"] = mo["fn"] is None and npmax == 1
+            ctx.count("rect_fn_nan")
+        else:
+            f["fn"] = mo["fn"] is not None and abs(fl(mo["fn"]) - Fn_[i]) <= 1e-11 * abs(Fn_[i])
+        flags[f"mode{i}"] = all(bool(v) for v in f.values())
+        if not flags[f"mode{i}"]:
+            flags[f"mode{i}_detail"] = {k_: bool(v) for k_, v in f.items()}
+        ctx.count("rect_band_lines_selected", len(mo["idSV"]))
+    ok = all(bool(v) for k_, v in flags.items() if not k_.endswith("_detail"))
+    ctx.corr(
+        name, bool(ok), inp,
+        {"flags": {k_: (v if isinstance(v, dict) else bool(v)) for k_, v in flags.items()}, "fn": [m_["fn"] and fl(m_["fn"]) for m_ in modes], "xi": [fl(m_["xi"]) for m_ in modes]},
+        {"fn": Fn_.tolist(), "xi": Xi_.tolist()}, key,
+    )
+    ctx.count(f"rect_ok_{kind}_{method}_cm{'<=nc' if cm <= nc else '>nc'}_npmax{npmax}")
+
+
 def correspondence(ctx):
     for _ in range(ctx.n(30, 300)):
         _bell_case(ctx)
@@ -669,6 +847,8 @@ def correspondence(ctx):
         _post_case(ctx, k)
     for k in range(ctx.n(10, 120)):
         _all_case(ctx, k, malformed=(k % 5 == 4))
+    for k in range(ctx.n(12, 120)):
+        _rect_case(ctx, k)
 
 
 # ----------------------------------------------------------------------------- oracle
